@@ -934,6 +934,35 @@ class Rbasex(Adapter):
                     bd=[None, '', 1, 1, 2, BADDIR][rng.integers(6)] if rng.random() < 0.6 else None,
                     seed=int(rng.integers(1 << 30)))
 
+    def gen_getbs(self, rng):
+        order = int(rng.choice([0, 1, 2, 2, 4]))
+        return dict(kind='getbs', rmax=int(rng.choice([3, 4, 4, 5])), order=order,
+                    odd=bool(order % 2 or (order and rng.random() < 0.3)),
+                    direction='forward' if rng.random() < 0.3 else 'inverse',
+                    reg=int(rng.choice([0, 0, 0, 2, 3, 4])), mask=int(rng.random() < 0.5),
+                    bd=[None, None, 1][rng.integers(3)], seed=0)
+
+    def gen_call_near(self, rng, prev):
+        if rng.random() < 0.08:
+            return self.gen_getbs(rng)
+        if prev is not None and prev.get('kind') == 'getbs':
+            prev = None
+        return Adapter.gen_call_near(self, rng, prev)
+
+    @staticmethod
+    def mask_of(c):
+        if not c['mask']:
+            return None
+        v = np.ones(c['rmax'] + 1, dtype=bool)
+        v[-2:] = False
+        return v
+
+    def vid_of(self, valid_bytes):
+        v = np.frombuffer(valid_bytes, dtype=bool)
+        if v.size == 0 or v.all():
+            return 1000 + v.size
+        return self.vids.setdefault(valid_bytes, len(self.vids) + 1)
+
     def gen_op(self, rng):
         u = rng.random()
         if u < 0.66:
@@ -955,6 +984,8 @@ class Rbasex(Adapter):
         return ('remove', d, key)
 
     def fix_call(self, c):
+        if c.get('kind') == 'getbs':
+            return c
         if c['wid'] and self.WSHAPE[c['wid']] != self.SHAPES[c['shape']]:
             c['wid'] = 0
         if c['reg'] == 1 and (c['direction'] != 'inverse' or (self.eff_odd(c) and c['order'] > 1)):
@@ -974,6 +1005,10 @@ class Rbasex(Adapter):
     def call(self, c, env=None):
         env = env or self.env
         m = self.mod()
+        if c.get('kind') == 'getbs':
+            self._info = None
+            return quiet(m.get_bs_cached, c['rmax'], c['order'], c['odd'], c['direction'], self.REGS[c['reg']],
+                         self.mask_of(c), env.arg(c['bd']), False)
         IM = image(c['seed'], self.SHAPES[c['shape']])
         geom = []
         orig = m._image
@@ -1013,7 +1048,7 @@ class Rbasex(Adapter):
     def ref_call(self, c):
         """what is sent to the fresh worker: the weights content is named"""
         c = dict(c)
-        if c['wid'] and 'wver' not in c:
+        if c.get('wid') and 'wver' not in c:
             c['wver'] = self.wver[c['wid']]
         return c
 
@@ -1028,10 +1063,17 @@ class Rbasex(Adapter):
         listing = []
         if d is not None and d != BADDIR:
             listing = [self.parse_name(f) for f in os.listdir(self.env.path(d)) if f.startswith(self.file_prefix)]
-        return dict(listing=listing, wver=self.wver[c['wid']] if c['wid'] else 0)
+        return dict(listing=listing, wver=self.wver[c['wid']] if c.get('wid') else 0)
 
     def coq_op(self, op, aux, ref=None):
         k = op[0]
+        if k == 'call' and op[1].get('kind') == 'getbs':
+            c = op[1]
+            mk = self.mask_of(c)
+            vid = 1000 if mk is None else self.vid_of(mk.tobytes())
+            return '(GetBs %d %d %s %s %d %d %s %s)' % (
+                c['rmax'], c['order'], cbool(c['odd']), cbool(c['direction'] == 'forward'), c['reg'], vid,
+                cbd(c['bd']), clist([self.coq_key(x) for x in aux['listing']]))
         if k == 'call':
             c = op[1]
             info = (ref[2] if ref is not None and len(ref) > 2 and ref[2] else None) or {}
@@ -1042,7 +1084,7 @@ class Rbasex(Adapter):
             pkey = repr([self.SHAPES[c['shape']], self.ORIGINS[c['origin']], self.RMAXS[c['rmax']], c['order'],
                          self.eff_odd(c)])
             pid = self.pids.setdefault(pkey, len(self.pids) + 1)
-            vid = self.vids.setdefault(info.get('valid', b''), len(self.vids) + 1)
+            vid = self.vid_of(info.get('valid', b''))
             g = info.get('geom')
             return ('(Call {| c_pid := %d; c_wid := %d; c_wver := %d; c_fail := %d; c_rmax := %d; c_vid := %d; '
                     'c_order := %d; c_odd := %s; c_fwd := %s; c_reg := %d; c_geom := %s; c_bd := %s; '
